@@ -345,6 +345,10 @@ def run_tlc(module, cfg, env=None, workers=1, timeout=1800, extra=None, metadir=
     jopts = "-Xmx%s" % xmx
     if xss:
         jopts += " -Xss1g -Dtlc2.tool.queue.IStateQueue=StateDeque"
+    else:
+        # the recursive operators of the deciders (Er, Match, Eval, ..) go deep on the larger enumerated programs:
+        # worker threads get a big stack (an intermittent StackOverflowError otherwise)
+        jopts += " -Xss512m"
     e["JAVA_TOOL_OPTIONS"] = jopts
     if env:
         e.update(env)
